@@ -16,7 +16,8 @@ Grid(nx, ny, sx, sy, diag) ==
                ELSE << <<idx(i, j), idx(i + 1, j), idx(i, j + 1)>>, <<idx(i + 1, j), idx(i + 1, j + 1), idx(i, j + 1)>> >>]),
    C |-> <<>>]
 WithE(g) == g @@ [E |-> SetToSeq(UNION { { Key(g.F[k][i], g.F[k][(i % 3) + 1]) : i \in 1..3 } : k \in 1..Len(g.F) })]
-Init == /\ mesh \in { WithE(Grid(2, 2, 1, 1, 0)), WithE(Grid(2, 2, 1, 1, 2)), WithE(Grid(2, 1, 3, 4, 1)), WithE(Grid(3, 2, 2, 1, 0)) }
+Shear(g, k) == [g EXCEPT !.P = [i \in 1..Len(g.P) |-> << g.P[i][1] + k * g.P[i][2], g.P[i][2], 0 >>]]       \* obtuse triangles, negative cotangents
+Init == /\ mesh \in { WithE(Shear(Grid(2, 2, 1, 1, 0), 2)), WithE(Shear(Grid(2, 1, 1, 2, 1), -3)), WithE(Grid(2, 2, 1, 1, 0)), WithE(Grid(2, 2, 1, 1, 2)), WithE(Grid(2, 1, 3, 4, 1)), WithE(Grid(3, 2, 2, 1, 0)) }
         /\ ab \in { <<1, 0>>, <<0, 1>>, <<2, -3>> }
 Next == UNCHANGED <<mesh, ab>>
 Spec == Init /\ [][Next]_<<mesh, ab>>
